@@ -431,7 +431,7 @@ def switch_places(body, roles):
     return list(out.values())
 
 
-def specialise_unit(roles, root_key, assume):
+def specialise_unit(roles, root_key, assume, assume_bool=None):
     """Reachable blocks of a function and its nested closures under a variant
     assumption, with constant propagation of captured booleans.
     Returns {body_key: blocks}."""
@@ -446,9 +446,11 @@ def specialise_unit(roles, root_key, assume):
         blocks = set(b.reachable())
         for _ in range(4):
             def aval(e, dty, _b=b, _blocks=blocks, _known=known):
-                with _b.restricted(_blocks):
-                    pass
                 x = strip_refs(e)
+                if assume_bool is not None:
+                    hv = assume_bool(x)
+                    if hv is not None:
+                        return "1" if hv else "0"
                 v = const_of(_b, x, _known)
                 if isinstance(v, bool):
                     return "1" if v else "0"
